@@ -147,6 +147,33 @@ type c19EmbedUnclosedLater struct {
 	X string `( @Ident`
 }
 
+// field types that reach the less travelled corners of the type walk: a Parseable with a value receiver, an
+// interface type that includes Parse, a slice type that is its own element type
+type c19ParseableVal struct{ V string }
+
+func (p c19ParseableVal) Parse(lex *lexer.PeekingLexer) error { lex.Next(); return nil }
+
+type c19WithParseableVal struct {
+	A c19ParseableVal `@@`
+	B string          `@Ident`
+}
+type c19ParseIface interface {
+	Parse(lex *lexer.PeekingLexer) error
+}
+type c19WithParseIface struct {
+	A c19ParseIface `@@`
+	B string        `@Ident`
+}
+type c19SelfSlice []c19SelfSlice
+type c19WithSelfSlice struct {
+	A c19SelfSlice `@@`
+	B string       `@Ident`
+}
+type c19SelfPtrSlice []*c19SelfPtrSlice
+type c19WithSelfPtrSlice struct {
+	A c19SelfPtrSlice `@Ident`
+}
+
 type c19LeftRec struct {
 	L *c19LeftRec `@@`
 	V string      `@Ident`
@@ -610,6 +637,18 @@ func buildStatic(name string) (bool, error) {
 	case "DeepBad":
 		p, err := participle.Build[c19Deep1Bad]()
 		return p != nil, err
+	case "ParseableVal":
+		p, err := participle.Build[c19WithParseableVal]()
+		return p != nil, err
+	case "ParseIface":
+		p, err := participle.Build[c19WithParseIface]()
+		return p != nil, err
+	case "SelfSlice":
+		p, err := participle.Build[c19WithSelfSlice]()
+		return p != nil, err
+	case "SelfPtrSlice":
+		p, err := participle.Build[c19WithSelfPtrSlice]()
+		return p != nil, err
 	case "EmbedBadLater":
 		p, err := participle.Build[c19EmbedBadLater]()
 		return p != nil, err
@@ -635,7 +674,7 @@ func buildStatic(name string) (bool, error) {
 	return false, fmt.Errorf("harness: unknown static type")
 }
 
-var c19Statics = []string{"Rec", "Unexported", "OnlyUnexported", "NoTags", "Nested", "WithIface", "MapField", "ChanField", "LeftRec", "string", "*Rec", "[]Rec", "map", "any", "EmbedSelf", "EmbedPair", "EmbedVal", "Deep", "DeepBad", "EmbedBadLater", "EmbedUnclosedLater"}
+var c19Statics = []string{"Rec", "Unexported", "OnlyUnexported", "NoTags", "Nested", "WithIface", "MapField", "ChanField", "LeftRec", "string", "*Rec", "[]Rec", "map", "any", "EmbedSelf", "EmbedPair", "EmbedVal", "Deep", "DeepBad", "EmbedBadLater", "EmbedUnclosedLater", "ParseableVal", "ParseIface", "SelfSlice", "SelfPtrSlice"}
 
 func describeC19(c *c19Case) string {
 	if c.Grammar != nil {
